@@ -8,7 +8,8 @@ open StunVerif StunVerif.Agent Driver
 def addrs : List String :=
   ["4:c0000201:3478", "4:c0000201:3479", "6:20010db8000000000000000000000001:3478", "4:0a000001:9",
    "6:00000000000000000000ffffc0000207:3478", "4:c0000207:3478",
-   "6:fe800000000000000000000000000001%2:3478", "6:fe800000000000000000000000000001%3:3478"]
+   "6:fe800000000000000000000000000001%2:3478", "6:fe800000000000000000000000000001%3:3478",
+   "6:fe800000000000000000000000000001%3.4660:3478", "6:20010db8000000000000000000000001%0.7:3478"]
 def tids : List Nat :=
   [0x01, 0x02030405060708090a0b0c0d, 0xffffffffffffffffffffffff, 0x2112a442, 0x700000000000000000000001]
 
@@ -17,23 +18,28 @@ def addrNum (s : String) : Option Nat :=
   match s.splitOn ":" with
   | [fam, ip, port] => do
     let f ← fam.toNat?
+    -- "<ip hex>[%<scope id>[.<flow label>]]": scope id and flow label are part of a socket address's identity
     let (ipHex, scope) ← match ip.splitOn "%" with
       | [h] => some (h, 0)
-      | [h, sc] => sc.toNat?.map (h, ·)
+      | [h, sc] => (match sc.splitOn "." with
+          | [a] => a.toNat?.map (h, ·)
+          | [a, fl] => do some (h, (← fl.toNat?) * 2 ^ 32 + (← a.toNat?))
+          | _ => none)
       | _ => none
     let i ← ofHex ipHex
     let p ← port.toNat?
-    some (((f * 2 ^ 128 + beNat i) * 2 ^ 32 + scope) * 65536 + p)
+    some (((f * 2 ^ 128 + beNat i) * 2 ^ 64 + scope) * 65536 + p)
   | _ => none
 
 def addrStr (n : Nat) : String :=
   let p := n % 65536
   let r := n / 65536
   let scope := r % 2 ^ 32
-  let r := r / 2 ^ 32
+  let flow := r / 2 ^ 32 % 2 ^ 32
+  let r := r / 2 ^ 64
   let f := r / 2 ^ 128
   let ip := r % 2 ^ 128
-  let sc := if scope = 0 then "" else s!"%{scope}"
+  let sc := if scope = 0 && flow = 0 then "" else if flow = 0 then s!"%{scope}" else s!"%{scope}.{flow}"
   s!"{f}:{toHex (encBE (if f = 6 then 16 else 4) ip)}{sc}:{p}"
 
 def keyCreds (k : String) : Creds :=
